@@ -740,10 +740,10 @@ func (am AnchorMatrix) Anchor(index, class int) Anchor {
 		return nil
 	}
 	offset := offsets[class]
-	if offset == 0 {
+	if offset == 0 || int(offset) > len(am.data) { // only sanitized for MarkBasePos
 		return nil
 	}
-	anchor, _, _ := ParseAnchor(am.data[offset:]) // offset is sanitized
+	anchor, _, _ := ParseAnchor(am.data[offset:])
 	return anchor
 }
 
